@@ -169,7 +169,7 @@ func freeRound(c freeCfg) (sig, what string, timeBound bool) {
 func TestCheck(t *testing.T) {
 	run := report.New(prop, "exploration")
 	defer run.Finish(t)
-	run.Rule("scenarios of 2-5 workers (distinct Lockers of 1-3 providers and goroutines sharing a Locker) running programs of 1-3 attempts over {Lock, TryLock, LockWithCtx} with re-acquisition, inside a synctest bubble; every kvs.Storage call of the lock code is a gate; one enabled action per step: release a gate, start an attempt, cancel a LockWithCtx before or during the call, leave a critical section, Shutdown a provider. Random and PCT schedules plus exhaustive DFS of 27 two-worker configurations. Oracles: (a) stuck = unfinished workers and no progress action at quiescence; (b) return values (cancelled-before-call => context error; uncancelled attempts succeed; nothing acquires after Shutdown returned); (c) residue at the end: no lock record, empty waiter table, no pending lease timer, TryLock/Unlock works again on every Locker of a live provider. free-running: 600 / 30 000 rounds of 3-10 real goroutines on 2-4 Lockers under the race detector: everybody finishes within 4 s (a missed release is only rescued by the 10 s lease), then the same residue probes. distinct = distinct (configuration, action trace) pairs executed + distinct free-running configurations")
+	run.Rule("scenarios of 2-5 workers (distinct Lockers of 1-3 providers and goroutines sharing a Locker) running programs of 1-3 attempts over {Lock, TryLock, LockWithCtx} with re-acquisition, inside a synctest bubble; every kvs.Storage call of the lock code is a gate; one enabled action per step: release a gate, start an attempt, cancel a LockWithCtx before or during the call, leave a critical section, Shutdown a provider. Random and PCT schedules plus exhaustive DFS of 27 two-worker configurations. Oracles: (a) stuck = unfinished workers and no progress action at quiescence; (b) return values (cancelled-before-call => context error; uncancelled attempts succeed; nothing acquires after Shutdown returned); (c) residue at the end: no lock record, empty waiter table, TryLock/Unlock works again (pending lease timers are counted, not judged: C05 tolerates one armed renewal per finished tenure) on every Locker of a live provider. free-running: 600 / 30 000 rounds of 3-10 real goroutines on 2-4 Lockers under the race detector: everybody finishes within 4 s (a missed release is only rescued by the 10 s lease), then the same residue probes. distinct = distinct (configuration, action trace) pairs executed + distinct free-running configurations")
 	run.Assume("liveness is decided in its bounded form: every controlled execution is finite and never reaches a state without a progress action while a worker is unfinished")
 	run.Assume("attempts already parked in the storage wait when Shutdown is called are not constrained by the statement and are not judged; frozen virtual time")
 
